@@ -28,7 +28,7 @@ import (
 
 func init() {
 	Register(&Scenario{
-		Prop: "C17", Run: scenarioC17, QuickRuns: 700, ThoroughRuns: 16000, Level: "exploration",
+		Prop: "C17", Run: scenarioC17, QuickRuns: 2800, ThoroughRuns: 70000, Level: "exploration",
 		Rule:       "one run = one scenario (a world: start genome kind, option swarm, seeded deterministic fitness landscape, k epochs with the sequential executor; or an experiment: Experiment.Execute with the sequential executor and a deterministic scripted evaluator) executed once as the reference and then 1..4 more times from the same tape slice under a tape-chosen perturbation: immediately again; after unrelated work (another world evolved under another seed, heap churn, forced GC); with GOMAXPROCS 1/4/16 and GC percent 1/off; inside a fake-clock bubble starting at 2000-01-01 with sleeps of hours to years between epochs (and different evaluator durations for experiments); in a fresh child process of the worker binary with another GOMAXPROCS/GOGC. After construction and after every epoch (or at every evaluator entry) the canonical population dump (species ids, ages, improvement ages, membership in order; every genome with floats as bit patterns; population counters) must be identical to the reference. A case is one compared rerun; non-trivial when the scenario produced structural innovations or more than one species; distinct by (scenario hash, perturbation)",
 		RealParts:  []string{"NewPopulation / NewPopulationRandom / ReadPopulation, SequentialPopulationEpochExecutor.NextEpoch with every operator beneath it, Experiment.Execute (sequential)", "math/rand global source seeded by the scenario", "Go runtime: real allocator, collector, map seeds; a real child process for the fresh-process perturbation", "time.Now / time.Since inside Experiment.Execute under the real and under the fake clock"},
 		StubParts:  []string{"fitness assignment (seeded deterministic landscape) / GenerationEvaluator (scripted, deterministic)", "wall clock in the fake-clock perturbation (testing/synctest)"},
